@@ -106,6 +106,28 @@ def multi_point_patrol(chk, n):
     return crashed
 
 
+def small_x_patrol(chk):
+    """the heavy-quark library returns NaN at very small x (large eta): the runner must hand out zeros there, under whatever name the observable was requested"""
+    from lib import cards, runs
+    grid = [float(v) for v in np.geomspace(1e-9, 1.0, 20)]
+    bad, n = [], 0
+    for name, proc in (("F2_total", "NC"), ("g1_total", "NC"), ("F2", "EM")):
+        th = cards.theory_card(FNS="FFNS", NfFF=3, PTO=2, PTODIS=2)
+        n += 1
+        cls, out, exc = outcome.classify(lambda: runs.run(th, cards.obs_card({name: [dict(x=1e-9, Q2=10.0)]}, prDIS=proc, xgrid=grid, degree=2)))
+        if cls == 2:
+            bad.append(dict(observable=name, process=proc, x=1e-9, Q2=10.0, what="%s: %s" % (type(exc).__name__, str(exc)[:100])))
+        elif cls == 0:
+            nonfin = {str(k): int(np.sum(~np.isfinite(v[0])) + np.sum(~np.isfinite(v[1]))) for k, v in out[name][0].orders.items()}
+            nonfin = {k: v for k, v in nonfin.items() if v}
+            if nonfin:
+                bad.append(dict(observable=name, process=proc, x=1e-9, Q2=10.0, what="non-finite entries per order key: %s" % nonfin))
+    chk.patrol["small_x_finite"] = dict(cases=n, failures=len(bad), rule="FFNS NfFF=3 NNLO at x = 1e-9 (grid down to 1e-9), names with and without flavour suffix: every entry finite")
+    for b in bad[:3]:
+        chk.violation("nonfinite:small-x:%s" % b["observable"], "NaN or infinity at very small x: %s" % b, dict(smallx=b))
+    return bad
+
+
 def run(chk):
     chk.trusted = TRUSTED
     quick = chk.tier == "quick"
@@ -136,6 +158,7 @@ def run(chk):
     chk.oblige("correspondence combiner (kernel lists and outcome classes, all schemes and orders)", not bad2, str(bad2[:1])[:500])
     report_known_gaps(chk)
     multi_point_patrol(chk, 10 if quick else 120)
+    small_x_patrol(chk)
     if chk.red() and not chk.violations:
         chk.violation("unproved", "a theorem or correspondence of C16 no longer checks: %s" % [o[0] for o in chk.red()][:5],
                       dict(red=[(o[0], o[2]) for o in chk.red()][:8]), found_input=False)
@@ -149,6 +172,13 @@ def replay(path):
         cls, _o, exc = real_cell(p["kind"], p["heavyness"], p["process"], p["fns"], p["NfFF"], p["PTO"], p["TMC"], p.get("parts", "full"), Q2=p.get("Q2", 30.0))
         print("replay:", cls, exc)
         return 1 if cls == 2 else 0
+    if "smallx" in p:
+        c = p["smallx"]
+        grid = [float(v) for v in np.geomspace(1e-9, 1.0, 20)]
+        out = runs.run(cards.theory_card(FNS="FFNS", NfFF=3, PTO=2, PTODIS=2), cards.obs_card({c["observable"]: [dict(x=c["x"], Q2=c["Q2"])]}, prDIS=c["process"], xgrid=grid, degree=2))
+        n = sum(int(np.sum(~np.isfinite(v[0]))) for v in out[c["observable"]][0].orders.values())
+        print("replay: non-finite entries:", n)
+        return 1 if n else 0
     if "multi" in p:
         c = p["multi"]
         th = cards.theory_card(PTODIS=c["theory"]["PTO"], MP=0.5, RenScaleVar=True, FactScaleVar=True, **c["theory"])
